@@ -18,6 +18,7 @@ var (
 )
 
 type traceEv struct {
+	Rule  int    // reference run only: rule number of a reduction
 	Kind  string // shift | reduce
 	Name  string // shifted symbol / lookahead
 	State int
@@ -102,7 +103,7 @@ func expectedTrace(sc *specCtx, f *feedInfo) ([]traceEv, string) {
 			for _, x := range sc.Spec.Rules[r-1].R {
 				rhs += " " + shownY(sc.Spec.YSymName(x))
 			}
-			out = append(out, traceEv{Kind: "reduce", Name: normName(shownY(a.SymName[la])), LHS: sc.Spec.NTs[sc.Spec.Rules[r-1].L].Name, RHS: normName(rhs), State: g},
+			out = append(out, traceEv{Rule: r, Kind: "reduce", Name: normName(shownY(a.SymName[la])), LHS: sc.Spec.NTs[sc.Spec.Rules[r-1].L].Name, RHS: normName(rhs), State: g},
 				traceEv{Kind: "shift", Name: sc.Spec.NTs[sc.Spec.Rules[r-1].L].Name, State: g})
 			stack = append(stack, g)
 		}
@@ -169,7 +170,7 @@ func execC17(ctx *Ctx, in *Input) *Result {
 				// the reductions in the trace must be those actually executed (recorded by the actions)
 				ri := 0
 				for _, ev := range got {
-					if ev.Kind != "reduce" {
+					if ev.Kind != "reduce" || sc.Spec.NoRec {
 						continue
 					}
 					if ri >= len(pr.Recs) {
@@ -189,13 +190,14 @@ func execC17(ctx *Ctx, in *Input) *Result {
 						return fail("trace-wrong-rule-text", "reduction #%d was by rule %d (%s) but the trace says %q -> %q", ri, rule, sc.Spec.RuleString(rule-1), ev.LHS, ev.RHS)
 					}
 				}
-				if ri != len(pr.Recs) {
+				if ri != len(pr.Recs) && !sc.Spec.NoRec {
 					return fail("trace-missing-reduction", "%d reductions were executed, the trace shows %d", len(pr.Recs), ri)
 				}
 				if len(got) != len(want) {
 					return fail("trace-length", "the trace has %d lines, a run of the automaton on this input performs %d actions\n got: %v\nwant: %v", len(got), len(want), got, want)
 				}
 				for k := range want {
+					want[k].Rule = 0
 					if got[k] != want[k] {
 						return fail("trace-line-differs", "line %d of the trace is %+v, the automaton does %+v", k+1, got[k], want[k])
 					}
